@@ -1318,8 +1318,10 @@ def pspec(seed):
     spec = [
         ("term", [FG, ("text", [x, y])], lambda v: ["term", v[0], v[1], 1.0]),
         ("prefix", [FG, ("text", [x[:2], xv])], lambda v: ["prefix", v[0], v[1], 1.0]),
-        ("wild", [FG, ("text", ["?" + x[1:], x[:3] + "?"])], lambda v: ["wild", v[0], v[1], 1.0]),
-        ("regex", [FG, ("text", ["[%s%s]%s" % (x[0], y[0], x[1:]), x[:3] + "."]), B1], P("regex")),
+        # (xv without any pattern character: a Wildcard is then that one word, a
+        # Regex - anchored at the start only - every word beginning with it)
+        ("wild", [FG, ("text", ["?" + x[1:], x[:3] + "?", xv])], lambda v: ["wild", v[0], v[1], 1.0]),
+        ("regex", [FG, ("text", ["[%s%s]%s" % (x[0], y[0], x[1:]), x[:3] + ".", xv]), B1], P("regex")),
         ("fuzzy", [FG, ("text", [x, y]), B1, ("maxdist", [1, 2]), ("prefixlength", [0, 2])], P("fuzzy")),
         ("variations", [FG, ("text", [x, y]), B1], P("variations")),
         ("trange", [FG, ("start", [srt[0], srt[1]]), ("end", [srt[3], srt[4]]),
